@@ -181,6 +181,9 @@ class CleanupTranslator:
                 for rhs_index, lhs_index in enumerate(m.var_map):
                     if rhs_symbol.arguments[rhs_index] != lhs_symbol.arguments[lhs_index]:
                         fits = False
+                    arg = rhs_symbol.arguments[rhs_index]
+                    if rhs.sign == Sign.Negation and arg.ast_type == ASTType.Variable and arg.name == "_":
+                        fits = False  # `not b(_)` speaks about every value, a(_) only about one
                 if fits:
                     return True
         return False
